@@ -9,7 +9,8 @@
 (* C.r = 0 for a FIFO crossing: UNBOUNDED relative drift of the two clocks  *)
 (* (any interleaving; the liveness clause assumes only that both clocks     *)
 (* keep ticking).                                                           *)
-(* MC = list of [c |-> L1 configuration, m |-> model configuration].        *)
+(* MC = list of [c |-> L1 configuration, m |-> model configuration,         *)
+(*               live |-> 1 if FreshAll is to be checked (tracks `same`)].  *)
 EXTENDS CdcContract, Json, IOUtils
 
 M == INSTANCE CdcModel
@@ -17,20 +18,22 @@ MC == JsonDeserialize(IOEnv.MCFG)
 
 VARIABLES d,   \* which configuration
           r,   \* the model's registers
-          ph   \* see CdcGraph / StreamGraph: a hung product must not be a stuttering step
-vars == <<d, r, q, hold, lastw, lastr, wfresh, rfresh, oprev, seen, run, rs, obs, ph>>
+          ph,  \* see CdcGraph / StreamGraph: a hung product must not be a stuttering step
+          same \* bus: the input word of the last step was the one of the step before (for FreshAll only)
+vars == <<d, r, q, hold, lastw, lastr, wfresh, rfresh, oprev, seen, run, rs, obs, ph, same>>
 
 C == MC[d].c
 Mc == MC[d].m
 
-Init == /\ d \in 1..Len(MC) /\ r = M!MInit(MC[d].m) /\ ph = 0 /\ CInit
+Init == /\ d \in 1..Len(MC) /\ r = M!MInit(MC[d].m) /\ ph = 0 /\ same = TRUE /\ CInit
 
 Step(iv) ==
   LET e == M!MStep(Mc, r, iv) IN
     /\ r' \in e.rs                                   \* every metastable resolution is a behaviour
     /\ d' = d
     /\ CStep(C, iv, e.o)
-    /\ ph' = IF r' = r /\ cvars' = cvars THEN 1 - ph ELSE 0
+    /\ same' = (MC[d].live = 0 \/ C.kind # "bus" \/ iv[2] = lastw[1])
+    /\ ph' = IF r' = r /\ cvars' = cvars /\ same' = same THEN 1 - ph ELSE 0
 
 Tick(t) == \E iv \in Inputs(C) : iv[1] = t /\ Step(iv)
 TickW    == Tick(1)
@@ -45,5 +48,8 @@ Alias == [d |-> d, r |-> r, obs |-> obs, q |-> q, seen |-> seen, rs |-> rs,
 (* both clocks keep ticking; producer and consumer cooperate (and no reset)  =>  tokens keep arriving *)
 Progress == (([]<>(obs.wtick)) /\ ([]<>(obs.rtick)) /\ (<>[](obs.coop))) => []<>(obs.srcfire)
 (* bus: after the input has been stable for long enough the output reflects it (CdcGraph: v \in 0..3) *)
-Fresh == \A v \in 0..15 : (([]<>(obs.wtick)) /\ ([]<>(obs.rtick)) /\ (<>[](obs.stable = v))) => <>[](obs.out = v)
+Fresh == \A v \in 0..3 : (([]<>(obs.wtick)) /\ ([]<>(obs.rtick)) /\ (<>[](obs.stable = v))) => <>[](obs.out = v)
+(* the same for every word of any alphabet in one formula: an input that eventually stops changing is eventually shown *)
+(* for good (`same` = the input of a step equals the input of the step before, obs.stable = the input, obs.out = o)    *)
+FreshAll == (([]<>(obs.wtick)) /\ ([]<>(obs.rtick)) /\ (<>[]same)) => <>[](obs.out = obs.stable)
 =============================================================================
